@@ -481,5 +481,6 @@ func init() {
 			Rule:   "random rune strings (40% from a list of metacharacters, whitespace, controls, non-printable BMP/astral and unassigned code points; rest uniform over ASCII / U+0000-07FF / BMP / astral), every 4th case an escaped-looking text (stray backslash forms: hex, octal, control, reference, class, anchor, property forms, braces, blanks, #); non-trivial = non-empty; distinct by (mode,string). Each case: (1) Go Escape/Unescape vs the Lean model; (2) the tree syntax.Parse builds for the pattern (Escape(s) as produced by Go, or the escaped-looking text) under 14 option sets (none, x, ms, xns, ecma, re2, rtl, ecma+m, re2+xs, unicode+rtl+x, ecma+u, ecma+x, ecma+u+x+rtl, re2+rtl) vs the Lean model of the literal fragment (parseWhy): model says literal t <=> the tree is a concatenation of One/Multi nodes spelling t; model says error => Parse fails; model says non-literal unit => no literal tree; constructs outside the fragment are not compared; (3) the model-free oracle Unescape(Escape(s))=s, the parser reads Escape(s) as the literal s under all 14 option sets, Escape(s) compiles under the drawn options and \\A(?:Escape(s))\\z matches s and none of 3 single-rune edits of s",
 			Corpus: corpus, N: c.N(6000, 300000), Gen: c19Gen, Check: c19Check,
 		})
+		parserLeg(c, 400, 6000) // leg Pr: the parser model (parser.go)
 	})
 }
